@@ -147,6 +147,56 @@ theorem isoperimetric_deficit_rounding (A P r : ℝ) :
   simp only [Scalar.lit, Scalar.ofNat_real, Scalar.pi_real]
   push_cast; ring
 
+/-- `iq` of the rounded polygon in closed form: `1 − (P² − 4πA) / P_r²` (the deficit is constant) -/
+theorem iq2_rounded_eq (A P r : ℝ) (hP : 0 < P) (hr : 0 ≤ r) :
+    Shape2D.iq (SteinerSpec.steinerArea2 A P r) (SteinerSpec.steinerPerimeter2 P r)
+      = 1 - (P ^ 2 - 4 * Real.pi * A) / (SteinerSpec.steinerPerimeter2 P r) ^ 2 := by
+  have hd := isoperimetric_deficit_rounding A P r
+  have hPr : 0 < SteinerSpec.steinerPerimeter2 P r := by
+    unfold SteinerSpec.steinerPerimeter2
+    simp only [Scalar.lit, Scalar.ofNat_real, Scalar.pi_real]
+    have : 0 ≤ ((2 : ℕ) : ℝ) * Real.pi * r := by have := Real.pi_pos; positivity
+    linarith
+  unfold Shape2D.iq
+  simp only [Scalar.lit, Scalar.sqr, Scalar.ofNat_real]
+  rw [← hd]
+  have hne : SteinerSpec.steinerPerimeter2 P r ≠ 0 := ne_of_gt hPr
+  simp only [Scalar.pi_real]
+  field_simp
+  push_cast
+  ring
+
+/-- **rounding is monotone for the isoperimetric quotient**: when the core satisfies `4πA ≤ P²`, a larger
+rounding radius never gives a smaller `iq` (and `r = 0` gives the core's own) -/
+theorem iq2_rounded_mono (A P r r' : ℝ) (hP : 0 < P) (hr : 0 ≤ r) (hrr : r ≤ r')
+    (hiso : 4 * Real.pi * A ≤ P ^ 2) :
+    Shape2D.iq (SteinerSpec.steinerArea2 A P r) (SteinerSpec.steinerPerimeter2 P r) ≤
+      Shape2D.iq (SteinerSpec.steinerArea2 A P r') (SteinerSpec.steinerPerimeter2 P r') := by
+  rw [iq2_rounded_eq A P r hP hr, iq2_rounded_eq A P r' hP (le_trans hr hrr)]
+  have hpi := Real.pi_pos
+  have h1 : 0 < SteinerSpec.steinerPerimeter2 P r := by
+    unfold SteinerSpec.steinerPerimeter2
+    simp only [Scalar.lit, Scalar.ofNat_real, Scalar.pi_real]
+    have : 0 ≤ ((2 : ℕ) : ℝ) * Real.pi * r := by positivity
+    linarith
+  have h2 : SteinerSpec.steinerPerimeter2 P r ≤ SteinerSpec.steinerPerimeter2 P r' := by
+    unfold SteinerSpec.steinerPerimeter2
+    simp only [Scalar.lit, Scalar.ofNat_real, Scalar.pi_real]
+    have : ((2 : ℕ) : ℝ) * Real.pi * r ≤ ((2 : ℕ) : ℝ) * Real.pi * r' :=
+      mul_le_mul_of_nonneg_left hrr (by positivity)
+    linarith
+  have hD : 0 ≤ P ^ 2 - 4 * Real.pi * A := by linarith
+  have : (P ^ 2 - 4 * Real.pi * A) / (SteinerSpec.steinerPerimeter2 P r') ^ 2 ≤
+      (P ^ 2 - 4 * Real.pi * A) / (SteinerSpec.steinerPerimeter2 P r) ^ 2 :=
+    div_le_div_of_nonneg_left hD (by positivity) (pow_le_pow_left₀ h1.le h2 2)
+  linarith
+
+/-- `r = 0` is the core itself -/
+theorem steiner2_zero (A P : ℝ) :
+    SteinerSpec.steinerArea2 A P 0 = A ∧ SteinerSpec.steinerPerimeter2 P 0 = P := by
+  unfold SteinerSpec.steinerArea2 SteinerSpec.steinerPerimeter2
+  simp
+
 /-- hence the rounded polygon satisfies the isoperimetric inequality iff its core does -/
 theorem iq2_rounded_le_one_iff (A P r : ℝ) (hP : 0 < P) (hr : 0 ≤ r) :
     Shape2D.iq (SteinerSpec.steinerArea2 A P r) (SteinerSpec.steinerPerimeter2 P r) ≤ 1 ↔
